@@ -1,3 +1,906 @@
+// c01cli drives the REAL relic command line end to end: `relic sign` with a file
+// token, the `relic serve` daemon over TLS with client-certificate
+// authentication, `relic remote sign` / `remote list-keys` against it, and
+// `relic verify` on every result. The binary under test (.build/bin/c01relic) is
+// /repo's own main_*.go built through the overlay by cmd/c01cli/build.sh; nothing
+// in here mirrors a command step by step, so a regression inside
+// cmdline/token/signcmd.go, cmdline/remotecmd/*.go, cmdline/servecmd,
+// cmdline/verify or server/daemon shows up as a CLI-VIOLATION line.
+//
+// Besides "exit 0 and `relic verify` names the expected signer" three checks do
+// not depend on the commands under test:
+//   - the PE CheckSum header field of signed PE images is recomputed here
+//     (`relic verify` does not look at it; only the commands' Fixup step sets it);
+//   - the digest named with --digest must be the one relic's verification
+//     library reports for the signature (the remote client has to forward it);
+//   - standalone and remote outputs of the same case have the same size +-64.
+//
+// Output: `CLI-VIOLATION key=<stable key> :: <description>` per problem, then
+// `CLI-DONE cases=<n> commands=<m> violations=<v>`; exit 0 unless the harness
+// itself is broken (`CLI-HARNESS-ERROR ...`, exit 2).
 package main
 
-func main() {}
+import (
+	"bytes"
+	"context"
+	"crypto"
+	"crypto/ecdsa"
+	"crypto/elliptic"
+	"crypto/rand"
+	"crypto/sha256"
+	"crypto/tls"
+	"crypto/x509"
+	"crypto/x509/pkix"
+	"encoding/binary"
+	"encoding/hex"
+	"encoding/pem"
+	"errors"
+	"flag"
+	"fmt"
+	"math/big"
+	"net"
+	"os"
+	"os/exec"
+	"os/signal"
+	"path/filepath"
+	"sort"
+	"strings"
+	"sync"
+	"sync/atomic"
+	"syscall"
+	"time"
+
+	"verif/relicx"
+)
+
+const (
+	keyDir   = "/verif/fixtures/keys"
+	packages = "/repo/functest/packages"
+	workers  = 8
+)
+
+var relicBin = "/verif/.build/bin/c01relic"
+
+type step struct {
+	sigType string   // -T value, "" = auto-detect
+	flags   []string // extra flags; "@name" values are replaced by the scratch copy of aux[name]
+}
+
+type sigCase struct {
+	name     string // stable name used in violation keys
+	fixture  string // path below /repo/functest/packages
+	aux      map[string]string
+	steps    []step // first step signs the fixture, further steps re-sign the result in place
+	pgp      bool   // signed with the key's PGP certificate (RSA keys only)
+	detached bool   // result is a detached signature: verify needs --content
+	outName  string // basename of the output in new-file mode (default: basename of fixture)
+	expect   []string
+	pe       bool // PE image: CheckSum must be right
+	// skipDigestCheck: do not compare the digest reported by the verification
+	// library with --digest
+	skipDigestCheck bool
+	// digests the format itself cannot carry; relic rightly refuses them
+	unsupported []string
+}
+
+func (c *sigCase) supports(digest string) bool {
+	for _, u := range c.unsupported {
+		if u == digest {
+			return false
+		}
+	}
+	return true
+}
+
+// Every signable sample type of /repo/functest/packages.
+//
+// Left out: fatfile.app/Contents/MacOS/dummy - `relic sign` refuses it on the
+// unchanged tree ("can't sign files of type: mach-o-fat", the signer has no Sign
+// function); slimfile.ipa of functest.sh needs `zip` to assemble and is a
+// verify-only type. PGP types (rpm, deb, pgp) are only run with the RSA keys:
+// the ECDSA fixture keys have no PGP certificate and relic rightly refuses them.
+// Digests a format cannot express are not asked for: xar has no SHA-384 checksum
+// style, APK signature scheme v2 defines SHA-256 and SHA-512 only, Apple code
+// directories (Mach-O, DMG) have no SHA-512 page hash type.
+var cases = []sigCase{
+	{name: "hello.ps1", fixture: "hello.ps1", steps: []step{{}}},
+	{name: "hello.ps1xml", fixture: "hello.ps1xml", steps: []step{{}}},
+	{name: "hello.mof", fixture: "hello.mof", steps: []step{{}}},
+	{name: "dummy.cab", fixture: "dummy.cab", steps: []step{{}}},
+	{name: "ClassLibrary1.dll", fixture: "ClassLibrary1.dll", steps: []step{{}}, pe: true},
+	{name: "WindowsFormsApplication1.exe", fixture: "WindowsFormsApplication1.exe", steps: []step{{}}, pe: true},
+	{name: "dummy.msi", fixture: "dummy.msi", steps: []step{{}}},
+	{name: "hello.jar", fixture: "hello.jar", steps: []step{{}}},
+	{name: "hello.jar+flags", fixture: "hello.jar", steps: []step{{flags: []string{"--sections-only", "--inline-signature", "--key-alias", "VERIF"}}}},
+	{name: "dummy.apk", fixture: "dummy.apk", steps: []step{{sigType: "jar", flags: []string{"--apk-v2-present"}}, {}}, expect: []string{"v1:", "v2:"}, unsupported: []string{"sha384"}},
+	{name: "dummy.xap", fixture: "dummy.xap", steps: []step{{}}},
+	{name: "VSIXProject1.vsix", fixture: "VSIXProject1.vsix", steps: []step{{}}},
+	{name: "App1.appx", fixture: "App1_1.0.3.0_x64.appx", steps: []step{{}}, expect: []string{"App1 1.0.3.0"}},
+	{name: "hyperv.cat", fixture: "hyperv.cat", steps: []step{{}}},
+	{name: "exe.manifest", fixture: "WindowsFormsApplication1.exe.manifest", steps: []step{{}}, expect: []string{"fgsfds.exe 1.2.3.4"}},
+	{name: "dummy.pkg", fixture: "dummy.pkg", steps: []step{{}}, unsupported: []string{"sha384"}},
+	{name: "dummy.pkg+resign", fixture: "dummy.pkg", steps: []step{{}, {}}, unsupported: []string{"sha384"}},
+	{name: "dummy.dmg", fixture: "dummy.dmg", steps: []step{{}}, unsupported: []string{"sha512"}},
+	{name: "slimfile.macho", fixture: "slimfile.app/dummyapp",
+		aux:    map[string]string{"plist": "slimfile.app/Info.plist", "resources": "slimfile.app/_CodeSignature/CodeResources"},
+		steps:  []step{{flags: []string{"--info-plist", "@plist", "--resources", "@resources"}}},
+		expect: []string{"com.sas.dummyapp"}, unsupported: []string{"sha512"}},
+	{name: "slimfile.macho+bare", fixture: "slimfile.app/dummyapp", steps: []step{{flags: []string{"--bundle-id", "verif.bare", "--hardened-runtime=false"}}}, expect: []string{"verif.bare"}, unsupported: []string{"sha512"}},
+	{name: "zlib1g.deb", fixture: "zlib1g_1.2.8.dfsg-5_i386.deb", steps: []step{{}}, pgp: true},
+	{name: "rocky-basesystem.rpm", fixture: "rocky-basesystem-11-13.el9.noarch.rpm", steps: []step{{}}, pgp: true, expect: []string{"basesystem-11-13.el9.noarch"}},
+	{name: "Release.gpg", fixture: "Release", outName: "Release.gpg", steps: []step{{sigType: "pgp"}}, pgp: true, detached: true},
+	{name: "Release.asc", fixture: "Release", outName: "Release.asc", steps: []step{{sigType: "pgp", flags: []string{"-a", "--textmode"}}}, pgp: true, detached: true},
+	{name: "InRelease", fixture: "Release", outName: "InRelease", steps: []step{{sigType: "pgp", flags: []string{"--clearsign"}}}, pgp: true},
+	{name: "Release.inline", fixture: "Release", outName: "Release.inline", steps: []step{{sigType: "pgp", flags: []string{"--inline"}}}, pgp: true},
+}
+
+type run struct {
+	c       *sigCase
+	key     string
+	digest  string // sha256 ...
+	path    string // standalone | remote
+	inPlace bool
+
+	// results
+	signed   bool
+	verified bool
+	size     int64
+}
+
+func (r *run) mode() string {
+	if r.inPlace {
+		return "inplace"
+	}
+	return "newfile"
+}
+func (r *run) variant() string {
+	return fmt.Sprintf("[key=%s digest=%s mode=%s]", r.key, r.digest, r.mode())
+}
+
+var (
+	scratch    string
+	violMu     sync.Mutex
+	violations []string
+	commands   atomic.Int64
+)
+
+func violation(key, format string, args ...any) {
+	desc := fmt.Sprintf(format, args...)
+	desc = strings.ReplaceAll(desc, scratch, "$SCRATCH")
+	desc = strings.Join(strings.Fields(desc), " ")
+	if len(desc) > 400 {
+		desc = desc[:400] + "..."
+	}
+	violMu.Lock()
+	violations = append(violations, fmt.Sprintf("CLI-VIOLATION key=%s :: %s", key, desc))
+	violMu.Unlock()
+}
+
+func (r *run) violation(what, format string, args ...any) {
+	violation(r.path+":"+r.c.name+":"+what, r.variant()+" "+format, args...)
+}
+
+var (
+	serverProc   *exec.Cmd
+	serverExited chan error
+)
+
+func harnessError(format string, args ...any) {
+	fmt.Printf("CLI-HARNESS-ERROR "+format+"\n", args...)
+	cleanup()
+	os.Exit(2)
+}
+
+func cleanup() {
+	if serverProc != nil && serverProc.Process != nil {
+		_ = serverProc.Process.Kill()
+		select {
+		case <-serverExited:
+		case <-time.After(5 * time.Second):
+		}
+		serverProc = nil
+	}
+	if scratch != "" && os.Getenv("C01CLI_KEEP") == "" {
+		_ = os.RemoveAll(scratch)
+	}
+}
+
+type result struct {
+	rc       int
+	stdout   string
+	stderr   string
+	timedOut bool
+}
+
+func (res result) brief() string {
+	s := strings.TrimSpace(res.stderr)
+	if o := strings.TrimSpace(res.stdout); o != "" {
+		s = o + " | " + s
+	}
+	return fmt.Sprintf("exit=%d output=%q", res.rc, s)
+}
+
+// relic runs the real binary with a clean environment.
+func relic(args ...string) result {
+	commands.Add(1)
+	ctx, cancel := context.WithTimeout(context.Background(), 90*time.Second)
+	defer cancel()
+	cmd := exec.CommandContext(ctx, relicBin, args...)
+	cmd.Env = []string{"PATH=/usr/bin:/bin", "HOME=" + scratch, "TMPDIR=" + filepath.Join(scratch, "tmp")}
+	cmd.Dir = scratch
+	var so, se bytes.Buffer
+	cmd.Stdout, cmd.Stderr = &so, &se
+	err := cmd.Run()
+	res := result{stdout: so.String(), stderr: se.String()}
+	if ctx.Err() != nil {
+		res.timedOut = true
+		res.rc = -1
+		return res
+	}
+	if err != nil {
+		var ee *exec.ExitError
+		if errors.As(err, &ee) {
+			res.rc = ee.ExitCode()
+		} else {
+			harnessError("cannot run %s: %v", relicBin, err)
+		}
+	}
+	return res
+}
+
+func must(err error) {
+	if err != nil {
+		harnessError("%v", err)
+	}
+}
+
+func copyFile(src, dst string) {
+	blob, err := os.ReadFile(src)
+	if err != nil {
+		harnessError("fixture missing: %v", err)
+	}
+	must(os.MkdirAll(filepath.Dir(dst), 0o755))
+	must(os.WriteFile(dst, blob, 0o644))
+}
+
+func fileSum(path string) string {
+	blob, err := os.ReadFile(path)
+	if err != nil {
+		return "unreadable:" + err.Error()
+	}
+	d := sha256.Sum256(blob)
+	return hex.EncodeToString(d[:])
+}
+
+// ---------------------------------------------------------------------------
+// configuration files
+
+func writeTLSCert(dir string) (certPath, keyPath string, cert *x509.Certificate) {
+	priv, err := ecdsa.GenerateKey(elliptic.P256(), rand.Reader)
+	must(err)
+	tmpl := &x509.Certificate{
+		SerialNumber:          big.NewInt(0xC01C11),
+		Subject:               pkix.Name{CommonName: "c01cli relic server"},
+		NotBefore:             time.Now().Add(-time.Hour),
+		NotAfter:              time.Now().Add(24 * time.Hour),
+		KeyUsage:              x509.KeyUsageDigitalSignature | x509.KeyUsageCertSign,
+		ExtKeyUsage:           []x509.ExtKeyUsage{x509.ExtKeyUsageServerAuth},
+		BasicConstraintsValid: true,
+		IsCA:                  true,
+		IPAddresses:           []net.IP{net.IPv4(127, 0, 0, 1)},
+		DNSNames:              []string{"localhost"},
+	}
+	der, err := x509.CreateCertificate(rand.Reader, tmpl, tmpl, &priv.PublicKey, priv)
+	must(err)
+	cert, err = x509.ParseCertificate(der)
+	must(err)
+	keyDer, err := x509.MarshalPKCS8PrivateKey(priv)
+	must(err)
+	certPath = filepath.Join(dir, "server.crt")
+	keyPath = filepath.Join(dir, "server.key")
+	must(os.WriteFile(certPath, pem.EncodeToMemory(&pem.Block{Type: "CERTIFICATE", Bytes: der}), 0o644))
+	must(os.WriteFile(keyPath, pem.EncodeToMemory(&pem.Block{Type: "PRIVATE KEY", Bytes: keyDer}), 0o600))
+	return
+}
+
+var serverKeys = []string{"rsaA", "rsaB", "p256A", "p384"}
+
+func tokensAndKeysYAML() string {
+	var b strings.Builder
+	b.WriteString("tokens:\n  tok:\n    type: file\n    pin: \"\"\nkeys:\n")
+	for _, k := range serverKeys {
+		fmt.Fprintf(&b, "  %s:\n    token: tok\n    keyfile: %s/%s.key\n    x509certificate: %s/%s.chain.crt\n", k, keyDir, k, keyDir, k)
+		if k == "rsaA" || k == "rsaB" {
+			fmt.Fprintf(&b, "    pgpcertificate: %s/%s.pgp\n", keyDir, k)
+		}
+		b.WriteString("    roles: [r]\n")
+	}
+	return b.String()
+}
+
+func clientFingerprint() string {
+	blob, err := os.ReadFile(filepath.Join(keyDir, "rsaB.leaf.crt"))
+	if err != nil {
+		harnessError("fixture missing: %v", err)
+	}
+	block, _ := pem.Decode(blob)
+	if block == nil {
+		harnessError("fixture rsaB.leaf.crt is not PEM")
+	}
+	c, err := x509.ParseCertificate(block.Bytes)
+	must(err)
+	d := sha256.Sum256(c.RawSubjectPublicKeyInfo)
+	return hex.EncodeToString(d[:])
+}
+
+func freePort() int {
+	l, err := net.Listen("tcp", "127.0.0.1:0")
+	must(err)
+	defer l.Close()
+	return l.Addr().(*net.TCPAddr).Port
+}
+
+func writeConfigs(port int, certPath, keyPath string) {
+	tk := tokensAndKeysYAML()
+	must(os.WriteFile(filepath.Join(scratch, "standalone.yml"), []byte(tk), 0o644))
+	server := tk + fmt.Sprintf("server:\n  listen: 127.0.0.1:%d\n  keyfile: %s\n  certfile: %s\nclients:\n  %s:\n    nickname: c01cli-client\n    roles: [r]\n",
+		port, keyPath, certPath, clientFingerprint())
+	must(os.WriteFile(filepath.Join(scratch, "server.yml"), []byte(server), 0o644))
+	client := fmt.Sprintf("remote:\n  url: https://127.0.0.1:%d\n  certfile: %s/rsaB.leaf.crt\n  keyfile: %s/rsaB.key\n  cacert: %s\n",
+		port, keyDir, keyDir, certPath)
+	must(os.WriteFile(filepath.Join(scratch, "client.yml"), []byte(client), 0o644))
+}
+
+// startServer launches the real `relic serve` and waits until it answers TLS.
+func startServer(port int, cert *x509.Certificate) error {
+	logf, err := os.Create(filepath.Join(scratch, "server.log"))
+	must(err)
+	cmd := exec.Command(relicBin, "serve", "-c", filepath.Join(scratch, "server.yml"))
+	cmd.Env = []string{"PATH=/usr/bin:/bin", "HOME=" + scratch, "TMPDIR=" + filepath.Join(scratch, "tmp")}
+	cmd.Dir = scratch
+	cmd.Stdout, cmd.Stderr = logf, logf
+	cmd.SysProcAttr = &syscall.SysProcAttr{Pdeathsig: syscall.SIGKILL}
+	if err := cmd.Start(); err != nil {
+		return err
+	}
+	logf.Close()
+	serverProc = cmd
+	exited := make(chan error, 1)
+	serverExited = exited
+	go func() { exited <- cmd.Wait() }()
+	pool := x509.NewCertPool()
+	pool.AddCert(cert)
+	deadline := time.Now().Add(30 * time.Second)
+	addr := fmt.Sprintf("127.0.0.1:%d", port)
+	for time.Now().Before(deadline) {
+		select {
+		case err := <-exited:
+			serverProc = nil
+			return fmt.Errorf("`relic serve` exited during startup: %v; log: %s", err, serverLogTail())
+		default:
+		}
+		d := &net.Dialer{Timeout: time.Second}
+		conn, err := tls.DialWithDialer(d, "tcp", addr, &tls.Config{RootCAs: pool, ServerName: "127.0.0.1"})
+		if err == nil {
+			conn.Close()
+			return nil
+		}
+		time.Sleep(100 * time.Millisecond)
+	}
+	return fmt.Errorf("`relic serve` did not accept TLS on %s within 30s; log: %s", addr, serverLogTail())
+}
+
+func serverLogTail() string {
+	blob, _ := os.ReadFile(filepath.Join(scratch, "server.log"))
+	if len(blob) > 600 {
+		blob = blob[len(blob)-600:]
+	}
+	return strings.Join(strings.Fields(string(blob)), " ")
+}
+
+// ---------------------------------------------------------------------------
+// independent oracles
+
+// peChecksumOK recomputes the PE CheckSum (16-bit one's-complement style sum of
+// the file with the field itself taken as zero, plus the file length).
+func peChecksumOK(path string) (ok bool, stored, want uint32, err error) {
+	b, err := os.ReadFile(path)
+	if err != nil {
+		return false, 0, 0, err
+	}
+	if len(b) < 0x40 {
+		return false, 0, 0, errors.New("short file")
+	}
+	pe := int(binary.LittleEndian.Uint32(b[0x3c:]))
+	pos := pe + 4 + 20 + 64
+	if pe <= 0 || pos+4 > len(b) || string(b[pe:pe+4]) != "PE\x00\x00" {
+		return false, 0, 0, errors.New("not a PE image")
+	}
+	stored = binary.LittleEndian.Uint32(b[pos:])
+	c := append([]byte(nil), b...)
+	copy(c[pos:], []byte{0, 0, 0, 0})
+	if len(c)%2 == 1 {
+		c = append(c, 0)
+	}
+	var sum uint64
+	for i := 0; i < len(c); i += 2 {
+		sum += uint64(binary.LittleEndian.Uint16(c[i:]))
+		sum = (sum & 0xffff) + (sum >> 16)
+	}
+	sum = (sum & 0xffff) + (sum >> 16)
+	want = uint32(sum) + uint32(len(b))
+	return stored == want, stored, want, nil
+}
+
+var hashByName = map[string]crypto.Hash{"sha256": crypto.SHA256, "sha384": crypto.SHA384, "sha512": crypto.SHA512}
+
+// libraryHashes asks relic's verification library (not the verify command) which
+// digest each signature of the file uses.
+func libraryHashes(path, content string) (hashes []crypto.Hash, err error) {
+	defer func() {
+		if p := recover(); p != nil {
+			err = fmt.Errorf("panic: %v", p)
+		}
+	}()
+	opts := relicx.TrustOpts()
+	opts.Content = content
+	sigs, err := relicx.Verify(path, opts)
+	if err != nil {
+		return nil, err
+	}
+	for _, s := range sigs {
+		hashes = append(hashes, s.Hash)
+	}
+	return hashes, nil
+}
+
+// ---------------------------------------------------------------------------
+
+var runSeq atomic.Int64
+
+func (r *run) execute() {
+	c := r.c
+	dir := filepath.Join(scratch, "runs", fmt.Sprintf("%04d", runSeq.Add(1)))
+	base := filepath.Base(c.fixture)
+	in := filepath.Join(dir, "in", base)
+	copyFile(filepath.Join(packages, c.fixture), in)
+	pristine := filepath.Join(dir, "pristine", base)
+	copyFile(filepath.Join(packages, c.fixture), pristine)
+	auxPath := map[string]string{}
+	for name, rel := range c.aux {
+		p := filepath.Join(dir, "aux", filepath.Base(rel))
+		copyFile(filepath.Join(packages, rel), p)
+		auxPath[name] = p
+	}
+	inSum := fileSum(in)
+	target := in
+	if !r.inPlace {
+		outName := c.outName
+		if outName == "" {
+			outName = base
+		}
+		target = filepath.Join(dir, "out", outName)
+		must(os.MkdirAll(filepath.Dir(target), 0o755))
+	}
+	for i, st := range c.steps {
+		var args []string
+		if r.path == "standalone" {
+			args = []string{"sign", "-c", filepath.Join(scratch, "standalone.yml")}
+		} else {
+			args = []string{"remote", "sign", "-c", filepath.Join(scratch, "client.yml")}
+		}
+		args = append(args, "-k", r.key, "--digest", r.digest)
+		if i == 0 && !r.inPlace {
+			args = append(args, "-f", in, "-o", target)
+		} else {
+			args = append(args, "-f", target)
+		}
+		if st.sigType != "" {
+			args = append(args, "-T", st.sigType)
+		}
+		for _, f := range st.flags {
+			if strings.HasPrefix(f, "@") {
+				f = auxPath[f[1:]]
+			}
+			args = append(args, f)
+		}
+		res := relic(args...)
+		stepName := ""
+		if len(c.steps) > 1 {
+			stepName = fmt.Sprintf("-step%d", i+1)
+		}
+		if res.timedOut {
+			r.violation("sign"+stepName+"-timeout", "`%s` did not finish", strings.Join(args, " "))
+			return
+		}
+		if res.rc != 0 {
+			r.violation("sign"+stepName+"-fails", "`%s`: %s", strings.Join(args, " "), res.brief())
+			return
+		}
+		if !strings.Contains(res.stderr, "Signed ") {
+			r.violation("sign"+stepName+"-no-confirmation", "exit 0 but no \"Signed <file>\" on stderr: %s", res.brief())
+		}
+	}
+	st, err := os.Stat(target)
+	if err != nil {
+		r.violation("output-missing", "sign exited 0 but %v", err)
+		return
+	}
+	r.signed = true
+	r.size = st.Size()
+	if !r.inPlace {
+		if got := fileSum(in); got != inSum {
+			r.violation("input-modified", "signing with -o changed the input file")
+		}
+	} else if fileSum(in) == inSum {
+		r.violation("inplace-unchanged", "in-place signing exited 0 but left the file as it was")
+	}
+	for name, p := range auxPath {
+		if fileSum(p) != fileSum(filepath.Join(packages, c.aux[name])) {
+			r.violation("aux-modified", "signing changed the file given for %s", name)
+		}
+	}
+
+	// the real `relic verify`
+	var vargs []string
+	var signer string
+	content := ""
+	if c.pgp {
+		vargs = []string{"verify", "--cert", filepath.Join(keyDir, r.key+".pgp")}
+		signer = fmt.Sprintf("`verif %s <%s@verif.example>`", r.key, r.key)
+		if c.detached {
+			content = pristine
+			vargs = append(vargs, "--content", pristine)
+		}
+	} else {
+		vargs = []string{"verify", "--cert", filepath.Join(keyDir, "root.crt")}
+		signer = fmt.Sprintf("`CN=leaf %s,", r.key)
+	}
+	vargs = append(vargs, target)
+	res := relic(vargs...)
+	switch {
+	case res.timedOut:
+		r.violation("verify-timeout", "`%s` did not finish", strings.Join(vargs, " "))
+	case res.rc != 0:
+		r.violation("verify-fails", "`%s`: %s", strings.Join(vargs, " "), res.brief())
+	default:
+		r.verified = true
+		if !strings.Contains(res.stdout, target+": OK -") {
+			r.verified = false
+			r.violation("verify-no-ok-line", "exit 0 without an OK line: %s", res.brief())
+		}
+		if !strings.Contains(res.stdout, signer) {
+			r.verified = false
+			r.violation("verify-wrong-signer", "expected signer %s in: %s", signer, res.brief())
+		}
+		if strings.Contains(res.stdout, "ERROR") {
+			r.verified = false
+			r.violation("verify-reports-error", "exit 0 but output has an ERROR: %s", res.brief())
+		}
+		for _, e := range c.expect {
+			if !strings.Contains(res.stdout, e) {
+				r.violation("verify-missing-info", "expected %q in: %s", e, res.brief())
+			}
+		}
+	}
+	// a wrong trust root must be refused by the verify command
+	if r.digest == "sha256" && !r.inPlace {
+		var bad []string
+		if c.pgp {
+			bad = []string{"verify", "--cert", filepath.Join(keyDir, "rsaB.pgp")}
+			if r.key == "rsaB" {
+				bad[2] = filepath.Join(keyDir, "rsaA.pgp")
+			}
+			if c.detached {
+				bad = append(bad, "--content", pristine)
+			}
+		} else {
+			bad = []string{"verify", "--cert", filepath.Join(keyDir, "otherroot.crt")}
+		}
+		bad = append(bad, target)
+		if res := relic(bad...); res.rc == 0 {
+			r.violation("verify-accepts-wrong-trust", "`%s` accepted a signature by %s: %s", strings.Join(bad, " "), r.key, res.brief())
+		}
+	}
+
+	// independent checks
+	if c.pe {
+		ok, stored, want, err := peChecksumOK(target)
+		if err != nil {
+			r.violation("pe-checksum-unreadable", "%v", err)
+		} else if !ok {
+			r.violation("pe-checksum-wrong", "CheckSum field is %#x, recomputed %#x", stored, want)
+		}
+	}
+	if r.verified && !c.skipDigestCheck {
+		hashes, err := libraryHashes(target, content)
+		if err != nil {
+			r.violation("library-verify-fails", "`relic verify` accepted the file, the verification library does not: %v", err)
+		} else {
+			want := hashByName[r.digest]
+			for _, h := range hashes {
+				if h != 0 && h != want {
+					r.violation("digest-not-honoured", "--digest %s asked for, signature uses %v", r.digest, h)
+					break
+				}
+			}
+		}
+	}
+}
+
+func buildRuns(thorough bool) []*run {
+	var runs []*run
+	add := func(c *sigCase, key, digest string) {
+		for _, path := range []string{"standalone", "remote"} {
+			for _, inPlace := range []bool{false, true} {
+				runs = append(runs, &run{c: c, key: key, digest: digest, path: path, inPlace: inPlace})
+			}
+		}
+	}
+	for i := range cases {
+		c := &cases[i]
+		keys := []string{"rsaA", "p256A"}
+		if thorough {
+			keys = append(keys, "p384", "rsaB")
+		}
+		if c.pgp {
+			keys = []string{"rsaA"}
+			if thorough {
+				keys = append(keys, "rsaB")
+			}
+		}
+		for _, k := range keys {
+			add(c, k, "sha256")
+			if thorough {
+				for _, d := range []string{"sha384", "sha512"} {
+					if c.supports(d) {
+						add(c, k, d)
+					}
+				}
+			}
+		}
+		if !thorough {
+			// one non-default digest per case also in the quick tier (it costs a
+			// fraction of a second), so that the --digest plumbing of both
+			// commands is always exercised
+			alt := "sha384"
+			if !c.supports(alt) {
+				alt = "sha512"
+			}
+			add(c, "rsaA", alt)
+		}
+	}
+	return runs
+}
+
+func extraChecks() {
+	// remote list-keys
+	res := relic("remote", "list-keys", "-c", filepath.Join(scratch, "client.yml"))
+	if res.rc != 0 {
+		violation("remote:list-keys:fails", "%s", res.brief())
+	} else {
+		got := strings.Fields(res.stdout)
+		sort.Strings(got)
+		want := append([]string(nil), serverKeys...)
+		sort.Strings(want)
+		if strings.Join(got, ",") != strings.Join(want, ",") {
+			violation("remote:list-keys:wrong-list", "expected %v, got %v", want, got)
+		}
+	}
+	// a key that does not exist, both paths, new file and in place
+	for _, path := range []string{"standalone", "remote"} {
+		dir := filepath.Join(scratch, "nokey-"+path)
+		in := filepath.Join(dir, "dummy.msi")
+		copyFile(filepath.Join(packages, "dummy.msi"), in)
+		sum := fileSum(in)
+		out := filepath.Join(dir, "out.msi")
+		for _, inPlace := range []bool{false, true} {
+			var args []string
+			if path == "standalone" {
+				args = []string{"sign", "-c", filepath.Join(scratch, "standalone.yml")}
+			} else {
+				args = []string{"remote", "sign", "-c", filepath.Join(scratch, "client.yml")}
+			}
+			args = append(args, "-k", "nosuchkey", "-f", in)
+			mode := "inplace"
+			if !inPlace {
+				args = append(args, "-o", out)
+				mode = "newfile"
+			}
+			res := relic(args...)
+			if res.rc == 0 {
+				violation(path+":nosuchkey:accepted", "[mode=%s] signing with an unknown key exited 0: %s", mode, res.brief())
+			}
+			if _, err := os.Stat(out); err == nil {
+				violation(path+":nosuchkey:output-created", "[mode=%s] a failed signing left an output file", mode)
+				os.Remove(out)
+			}
+			if fileSum(in) != sum {
+				violation(path+":nosuchkey:input-modified", "[mode=%s] a failed signing changed the input file", mode)
+				copyFile(filepath.Join(packages, "dummy.msi"), in)
+			}
+		}
+	}
+	// a client certificate the server does not know must be turned away
+	other := fmt.Sprintf("remote:\n  url: %s\n  certfile: %s/rsaA.leaf.crt\n  keyfile: %s/rsaA.key\n  cacert: %s\n",
+		remoteURL, keyDir, keyDir, filepath.Join(scratch, "server.crt"))
+	must(os.WriteFile(filepath.Join(scratch, "stranger.yml"), []byte(other), 0o644))
+	dir := filepath.Join(scratch, "stranger")
+	in := filepath.Join(dir, "dummy.msi")
+	copyFile(filepath.Join(packages, "dummy.msi"), in)
+	out := filepath.Join(dir, "out.msi")
+	res = relic("remote", "sign", "-c", filepath.Join(scratch, "stranger.yml"), "-k", "rsaA", "-f", in, "-o", out)
+	if res.rc == 0 {
+		violation("remote:unknown-client:accepted", "a client whose certificate is not configured could sign: %s", res.brief())
+	}
+	if _, err := os.Stat(out); err == nil {
+		violation("remote:unknown-client:output-created", "a refused signing left an output file")
+	}
+	// --if-unsigned leaves a signed file alone and signs an unsigned one
+	for _, path := range []string{"standalone", "remote"} {
+		dir := filepath.Join(scratch, "ifunsigned-"+path)
+		f := filepath.Join(dir, "dummy.msi")
+		copyFile(filepath.Join(packages, "dummy.msi"), f)
+		var pre []string
+		if path == "standalone" {
+			pre = []string{"sign", "-c", filepath.Join(scratch, "standalone.yml")}
+		} else {
+			pre = []string{"remote", "sign", "-c", filepath.Join(scratch, "client.yml")}
+		}
+		res := relic(append(append([]string(nil), pre...), "-k", "rsaA", "-f", f, "--if-unsigned")...)
+		if res.rc != 0 {
+			violation(path+":if-unsigned:unsigned-file-fails", "%s", res.brief())
+			continue
+		}
+		sum := fileSum(f)
+		res = relic(append(append([]string(nil), pre...), "-k", "p256A", "-f", f, "--if-unsigned")...)
+		if res.rc != 0 {
+			violation(path+":if-unsigned:signed-file-fails", "%s", res.brief())
+		} else if fileSum(f) != sum {
+			violation(path+":if-unsigned:signed-file-resigned", "an already-signed file was signed again")
+		}
+		if res := relic("verify", "--cert", filepath.Join(keyDir, "root.crt"), f); res.rc != 0 || !strings.Contains(res.stdout, "`CN=leaf rsaA,") {
+			violation(path+":if-unsigned:verify-fails", "%s", res.brief())
+		}
+	}
+}
+
+var remoteURL string
+
+func main() {
+	thorough := flag.Bool("thorough", false, "all keys x digests x modes")
+	flag.StringVar(&relicBin, "relic", relicBin, "relic binary to drive")
+	flag.Parse()
+	start := time.Now()
+	relicx.Quiet()
+
+	if _, err := os.Stat(relicBin); err != nil {
+		fmt.Printf("CLI-HARNESS-ERROR relic binary missing (run cmd/c01cli/build.sh): %v\n", err)
+		os.Exit(2)
+	}
+	parent := "/dev/shm"
+	if st, err := os.Stat(parent); err != nil || !st.IsDir() {
+		parent = os.TempDir()
+	}
+	var err error
+	scratch, err = os.MkdirTemp(parent, "c01cli-")
+	if err != nil {
+		scratch, err = os.MkdirTemp(os.TempDir(), "c01cli-")
+		if err != nil {
+			fmt.Printf("CLI-HARNESS-ERROR no scratch directory: %v\n", err)
+			os.Exit(2)
+		}
+	}
+	must(os.MkdirAll(filepath.Join(scratch, "tmp"), 0o755))
+	sigc := make(chan os.Signal, 1)
+	signal.Notify(sigc, syscall.SIGINT, syscall.SIGTERM)
+	go func() {
+		<-sigc
+		fmt.Println("CLI-HARNESS-ERROR interrupted")
+		cleanup()
+		os.Exit(2)
+	}()
+
+	for i := range cases {
+		if _, err := os.Stat(filepath.Join(packages, cases[i].fixture)); err != nil {
+			harnessError("fixture missing: %v", err)
+		}
+	}
+	certPath, keyPath, cert := writeTLSCert(scratch)
+	var port int
+	for attempt := 0; ; attempt++ {
+		port = freePort()
+		remoteURL = fmt.Sprintf("https://127.0.0.1:%d", port)
+		writeConfigs(port, certPath, keyPath)
+		err := startServer(port, cert)
+		if err == nil {
+			break
+		}
+		if serverProc != nil {
+			_ = serverProc.Process.Kill()
+			<-serverExited
+			serverProc = nil
+		}
+		if attempt == 1 {
+			harnessError("%v", err)
+		}
+	}
+
+	runs := buildRuns(*thorough)
+	jobs := make(chan *run)
+	var wg sync.WaitGroup
+	for w := 0; w < workers; w++ {
+		wg.Add(1)
+		go func() {
+			defer wg.Done()
+			for r := range jobs {
+				r.execute()
+			}
+		}()
+	}
+	for _, r := range runs {
+		jobs <- r
+	}
+	close(jobs)
+	wg.Wait()
+
+	// standalone against remote: both verify, same size +-64 bytes
+	type pairKey struct {
+		c                 string
+		key, digest, mode string
+	}
+	pairs := map[pairKey][2]*run{}
+	for _, r := range runs {
+		k := pairKey{r.c.name, r.key, r.digest, r.mode()}
+		p := pairs[k]
+		if r.path == "standalone" {
+			p[0] = r
+		} else {
+			p[1] = r
+		}
+		pairs[k] = p
+	}
+	for _, r := range runs {
+		if r.path != "standalone" {
+			continue
+		}
+		p := pairs[pairKey{r.c.name, r.key, r.digest, r.mode()}]
+		s, m := p[0], p[1]
+		if s == nil || m == nil {
+			continue
+		}
+		switch {
+		case s.verified && !m.verified:
+			violation("compare:"+r.c.name+":only-standalone-verifies", "%s the standalone result verifies, the remote one does not", r.variant())
+		case !s.verified && m.verified:
+			violation("compare:"+r.c.name+":only-remote-verifies", "%s the remote result verifies, the standalone one does not", r.variant())
+		}
+		if s.signed && m.signed {
+			d := s.size - m.size
+			if d < -64 || d > 64 {
+				violation("compare:"+r.c.name+":size-differs", "%s standalone output has %d bytes, remote output %d", r.variant(), s.size, m.size)
+			}
+		}
+	}
+
+	extraChecks()
+
+	// the server must still be alive and answering
+	if serverProc == nil || serverProc.ProcessState != nil {
+		violation("remote:serve:died", "`relic serve` is gone at the end of the run; log: %s", serverLogTail())
+	} else if res := relic("remote", "list-keys", "-c", filepath.Join(scratch, "client.yml")); res.rc != 0 {
+		violation("remote:serve:unresponsive", "list-keys at the end of the run: %s; log: %s", res.brief(), serverLogTail())
+	}
+
+	sort.Strings(violations)
+	for _, v := range violations {
+		fmt.Println(v)
+	}
+	ncases := len(runs)
+	fmt.Printf("CLI-DONE cases=%d commands=%d violations=%d\n", ncases, commands.Load(), len(violations))
+	if os.Getenv("C01CLI_TIMING") != "" {
+		fmt.Fprintf(os.Stderr, "elapsed %.1fs\n", time.Since(start).Seconds())
+	}
+	cleanup()
+	os.Exit(0)
+}
